@@ -128,6 +128,7 @@ def _spec(R, versions):
     gm = chrun.gen_module('C15_conditions', src)
     targets = [f'{gm}.check_v{v}_s{s}' for v, s in names] + [f'{gm}.reach_v{v}_s{s}' for v, s in names]
     res = chrun.run(targets, per_condition_timeout=170 if R.tier == 'quick' else 600, workers=8)
+    floatcut.require_verdicts(res)
     shape = {0: 'no secrets key', 1: 'secrets None', 2: 'secrets []', 3: 'one secret', 4: 'two secrets'}
     for v, s in names:
         rv, rmsg, rdt = res[f'{gm}.reach_v{v}_s{s}']
